@@ -16,7 +16,7 @@ structure St where
   cfg : GenCfg := {}
   lib : LibCfg := {}
   /-- buffer.go hands slices out as `b[off:]` (open capacity); flips when the 3-index fix lands -/
-  bufOpen : Bool := true
+  bufOpen : Bool := false
   /-- the package of declarations the `PX` records refer to (C13) -/
   pk : Pkg := { name := "", path := "", decls := [] }
   /-- "" = the property's own acceptance; "nopanic" = C02: an outcome is accepted iff it is not a panic -/
